@@ -354,13 +354,14 @@ def grammar_check(ctx, cats, n_quick, n_thorough, opts, evals=EVALS, invs=None, 
         print("VIOLATION property=%s replay=%s" % (prop, (models.get(e) or machines.get(e) or semr or {}).get("log", "(TLC log)")))
         log("  the specification itself violates %s for %s" % (inv, e))
         nviol += 1
-    trace_cats = {"trace_status": {"C03"}, "trace_ticks": {"C02"}, "trace_pure": {"C16"}}
+    trace_cats = {"trace_status": {"C03"}, "trace_ticks": {"C02"}, "trace_pure": {"C16"}, "trace_ast": {"C03", "C04", "C12", "C13", "C14", "C20"}}
     tmine = [f for f in tv["rejections"] if prop in trace_cats.get(f["cat"], {prop}) or f["cat"] == "trace_value"]
     nviol += vlib.report(prop, tmine)
     cov = {"states": sum(r["distinct"] for r in models.values()), "transitions": sum(r["states"] for r in models.values()),
            "traces_validated_against_impl": sum_stats(all_stats, "calls") + tv["events"],
            "behaviours_replayed": sum(r["beh"] for r in models.values()), "trace_events_validated_by_TLC": tv["events"], "trace_decided": tv.get("totals", {}),
            "evaluations": sum_stats(all_stats, "calls"), "distinct_nontrivial": sum_stats(all_stats, "nontrivial"),
+           "syntax_trees_compared_with_the_specification": sum_stats(all_stats, "trees_compared"),
            "compared": sum_stats(all_stats, "compared"), "matched": sum_stats(all_stats, "matched"), "not_asserted": sum_stats(all_stats, "not_asserted"),
            "not_asserted_rules": merge_rules(all_stats),
            "rule": "every viable token-kind sequence of length <= N over each evaluator's complete kind vocabulary plus the foreign token (TLC, exhaustive), rendered with %d operand/spelling assignments x placeholders (boundary pools: exhaustive assignment up to the cap), in %s builds; non-trivial = distinct (evaluator,input,placeholder) whose tree has >= %d operator nodes (or, for rejected input, >= 2 tokens)" % (opt0.get("assignments", 2), "/".join(profiles), opt0.get("nontrivial_min_ops", 2)),
@@ -556,8 +557,8 @@ def trace_validate(ctx, event_files, cap=40000, chunk=4000, par=8, reset_between
             totals[k] = totals.get(k, 0) + v
         for rj in r["rejections"]:
             ev, dg = rj["event"], rj["diag"]
-            failed = [k for k in ("claim", "status", "ticks", "value", "pure") if dg.get(k) is False]
-            if dg.get("failed") in ("claim", "status", "ticks", "value", "pure"):
+            failed = [k for k in ("claim", "status", "ticks", "ast", "value", "pure") if dg.get(k) is False]
+            if dg.get("failed") in ("claim", "status", "ticks", "ast", "value", "pure"):
                 failed = [dg["failed"]]
             if "claim" in failed:
                 raise ToolError("harness rendering does not lex to the claimed token kinds: %s -> %s" % (ev.get("chars"), dg.get("kinds")))
@@ -601,35 +602,35 @@ def c01(ctx):
 def c03(ctx):
     nm = 700 if ctx.quick() else 12000
     near = lambda profile: ([base_job(ctx, "nearmiss", "%s_nearmiss_%s" % (profile, e), profile, e=e, n=nm, seed=ctx.seed, event_every=1, event_cap=nm) for e in EVALS] if profile == "debug" else [])
-    return grammar_check(ctx, {"ok_on_reject", "err_on_defined"}, {"*": 5}, {"*": 6, "f64": 7}, extra_jobs=near, opts= {"assignments": 2, "event_every": 100, "event_cap": 2000, "nontrivial_min_ops": 1, "reject_suffixes": 2, "parser_events": True},
+    return grammar_check(ctx, {"ok_on_reject", "err_on_defined", "ast"}, {"*": 5}, {"*": 6, "f64": 7}, extra_jobs=near, opts= {"assignments": 2, "event_every": 100, "event_cap": 2000, "nontrivial_min_ops": 1, "reject_suffixes": 2, "parser_events": True},
                          lexer={"alphabets": ["lit", "kw1", "kw2", "kw3", "ops", "sup"], "k_quick": 3, "k_thorough": 5})
 
 def c04(ctx):
     # second pass: in eval_i64 (and on eval_number's Integers) two groupings of + - * differ only in whether an intermediate
     # result overflows, so the tree-revealing operands there are the boundary values
-    return grammar_check(ctx, {"value", "err_on_defined", "ok_on_semantic_err"}, {"*": 5}, {"*": 6, "f64": 7},
+    return grammar_check(ctx, {"value", "err_on_defined", "ok_on_semantic_err", "ast"}, {"*": 5}, {"*": 6, "f64": 7},
                          [{"assignments": 3, "event_every": 100, "event_cap": 2000, "nontrivial_min_ops": 2, "parser_events": True},
                           {"assignments": 1, "boundary_pool": True, "full_placeholders": True, "max_assign": 150 if ctx.quick() else 3000, "event_every": 1000, "event_cap": 500,
                            "nontrivial_min_ops": 2, "only_models": ["i64", "num"]}],
                          compose={"quick": (3, 3), "thorough": (4, 4), "join": {"quick": (2, 3), "thorough": (3, 4)}}, machine={"evals": ["f64", "i64"], "quick": 4, "thorough": 6})
 
 def c12(ctx):
-    return grammar_check(ctx, {"meta_jux", "ok_on_reject"}, {"*": 5}, {"*": 6, "f64": 7},
+    return grammar_check(ctx, {"meta_jux", "ok_on_reject", "ast"}, {"*": 5}, {"*": 6, "f64": 7},
                          {"assignments": 2, "extras": ["jux"], "event_every": 200, "event_cap": 1500, "nontrivial_min_ops": 1, "parser_events": True, "reject_suffixes": 1, "full_placeholders": True},
                          compose={"quick": (3, 3), "thorough": (4, 4), "evals": ["f64", "i64", "dec"]})
 
 def c13(ctx):
-    return grammar_check(ctx, {"meta_ws", "meta_alias", "meta_notation", "meta_sup", "meta_plus", "meta_wrap"}, {"*": 4}, {"*": 5, "f64": 6},
+    return grammar_check(ctx, {"meta_ws", "meta_alias", "meta_notation", "meta_sup", "meta_plus", "meta_wrap", "ast"}, {"*": 4}, {"*": 5, "f64": 6},
                          {"assignments": 2, "all_functions": True, "extras": ["spellings"], "event_every": 200, "event_cap": 1500, "nontrivial_min_ops": 1, "full_placeholders": True},
                          lexer={"alphabets": ["lit", "kw1", "kw2"], "k_quick": 3, "k_thorough": 4, "invs": ["WsInvariant"]})
 
 def c14(ctx):
-    return grammar_check(ctx, {"value", "meta_ans", "ok_on_reject"}, {"*": 4}, {"*": 5, "f64": 6},
+    return grammar_check(ctx, {"value", "meta_ans", "ok_on_reject", "ast"}, {"*": 4}, {"*": 5, "f64": 6},
                          {"assignments": 2, "full_placeholders": True, "extras": ["ans"], "event_every": 200, "event_cap": 1500, "nontrivial_min_ops": 1, "reject_suffixes": 1},
                          invs=["NoJuxAfter", "NoJuxBefore"])
 
 def c20(ctx):
-    return grammar_check(ctx, {"meta_subst"}, {"*": 5, "f64": 6, "num": 6}, {"*": 6, "f64": 7},
+    return grammar_check(ctx, {"meta_subst", "ast"}, {"*": 5, "f64": 6, "num": 6}, {"*": 6, "f64": 7},
                          {"assignments": 1, "extras": ["subst"], "event_every": 200, "event_cap": 1500, "nontrivial_min_ops": 1, "full_placeholders": True})
 
 # the operations each statement speaks about (a tree using anything else is executed but not asserted by that check)
@@ -676,7 +677,7 @@ def finish(ctx, cats, tlc_runs, all_findings, all_stats, rule, level="model_chec
         print("VIOLATION property=%s replay=%s" % (prop, logp))
         log("  the specification itself violates %s (%s)" % (inv, name))
         nviol += 1
-    trace_cats = {"trace_status": {"C03"}, "trace_ticks": {"C02"}, "trace_pure": {"C16"}}
+    trace_cats = {"trace_status": {"C03"}, "trace_ticks": {"C02"}, "trace_pure": {"C16"}, "trace_ast": {"C03", "C04", "C12", "C13", "C14", "C20"}}
     nviol += vlib.report(prop, [f for f in tv["rejections"] if prop in trace_cats.get(f["cat"], {prop}) or f["cat"] == "trace_value"])
     cov = {"states": sum(r["distinct"] for r in tlc_runs), "transitions": sum(r["states"] for r in tlc_runs),
            "traces_validated_against_impl": sum_stats(all_stats, "calls") + tv["events"], "trace_events_validated_by_TLC": tv["events"],
